@@ -23,6 +23,7 @@ CONSTANTS Lens,        \* payload lengths
           Modes,       \* subset of {"eof", "nbio"}
           KW, KR,      \* number of leading write / read calls whose outcome the environment chooses
           WPats, RPats,   \* cyclic outcome patterns offered for a whole transfer; {<<>>} = none (free choice of the first K)
+          QueueCap,    \* writes the socket can hold unread (the driver is single-threaded: nobody reads while the client sends)
           Chunk,       \* read chunk of the descriptor reader (4096)
           SendMech, RecvMech,
           Obs(_)       \* observation of a completed behaviour
@@ -46,7 +47,11 @@ Min(x, y) == IF x < y THEN x ELSE y
 \* the short counts offered for a call that could move r bytes: 1, half, all but one
 Shorts(r) == {n \in {1, r \div 2, r - 1} : n >= 1 /\ n < r}
 
+\* number of write calls that carry data when pattern p is followed for l bytes
+DataWrites(l, p) == LET sh == {p[i][2] : i \in {j \in 1 .. Len(p) : p[j][1] = "sh"}} IN
+                    IF sh = {} THEN 1 ELSE (l \div (CHOOSE m \in sh : \A k \in sh : m <= k)) + 1
 Init == /\ len \in Lens /\ mode \in Modes /\ wp \in WPats /\ rp \in RPats
+        /\ (wp # <<>> => DataWrites(len, wp) <= QueueCap)
         /\ ph = "send" /\ off = 0 /\ retries = 0 /\ wcalls = 0 /\ sret = FALSE /\ chan = 0
         /\ bufsz = Chunk /\ cur = 0 /\ total = 0 /\ stale = FALSE /\ errno = "none" /\ spin = FALSE
         /\ rcalls = 0 /\ rlen = 0 /\ hw = <<>> /\ hr = <<>>
